@@ -2,10 +2,10 @@ SPECIFICATION Spec
 CONSTANTS
  NH = 3
  K = {1,2,3,4,5}
- V = {1,2}
+ V = {1}
  MaxOps = 4
  KeepHist = TRUE
- SetMode = FALSE
+ SetMode = TRUE
 VIEW View
 ACTION_CONSTRAINT Emit
 INVARIANTS TypeOK NoOrphan SomeLive SetValues
